@@ -1,8 +1,10 @@
-from . import run_graph, run_pie
+from . import run_graph, run_pie, run_small
 RUNNERS = {
     'C10': run_graph.run,
     'C11': run_graph.run,
 }
 for p in ('C01', 'C02', 'C03', 'C04', 'C05', 'C06', 'C07', 'C08', 'C09', 'C16', 'C17', 'C18', 'C19', 'C20'):
     RUNNERS[p] = run_pie.run
-HARNESS_BINS = ['graph_ops', 'pie_hist', 'misc_probe']
+for p in ('C12', 'C13', 'C14', 'C15'):
+    RUNNERS[p] = run_small.run
+HARNESS_BINS = ['graph_ops', 'pie_hist', 'misc_probe', 'fs_probe']
